@@ -113,7 +113,25 @@ def ordering_agreement(res):
     res.floor(R, len(sub.instances), 12, "sibling comparisons")
 
 
+def dimension_algebra(res):
+    """C19.6: the documented dimensions 1..4 (and both orderings) can only satisfy the construction / exactly-once guarantees if the
+    coordinate <-> index conversions and the parent / child algebra are the bit moves the hierarchy needs IN THAT DIMENSION: rule C11.4
+    (bit provenance, one run per dimension, holds for every input) re-exported per configuration"""
+    import c11
+    import tbf
+    facts = tbf.scan("core")
+    sub = tbf.Result("C11")
+    c11.bit_laws(facts, sub)
+    R = "C19.6.dimension-algebra"
+    for i in sub.instances:
+        res.instance(R, i["key"], i["at"], i["detail"])
+    for v in sub.violations:
+        res.violation(R, v["file"], v["function"], v["key"], v["line"], v["msg"] + " - the configurations of this dimension / ordering place cells at other coordinates than the particles' cells")
+    res.floor(R, len(sub.instances), 8, "bit-provenance runs")
+
+
 def run(res, tier):
+    res.rule("C19.6 dimension algebra: per-bit provenance of the index conversions and of parent/child for Dim = 1..4 and both orderings (rule C11.4)")
     res.rule("C19.4 ordering agreement: Hilbert and Morton list builders equal atom by atom; per-group and per-cell builders of each ordering agree, coordinate forms identified only under a bit-provenance proof for that ordering")
     res.rule("C19.1 every documented configuration (dim 1-4 x float/double x Morton/periodic/Hilbert(3D) x auto/explicit block x rebuild x 5 executors x data type =/!= real x 0/1 result values) type-checks")
     res.rule("C19.2 include-guard macros unique across src/")
@@ -146,6 +164,7 @@ def run(res, tier):
     res.floor("C19.1", len(runs), 20, "witness compilations")
     selector_witness(res)      # one compilation; in both tiers
     ordering_agreement(res)
+    dimension_algebra(res)
     # the configurations with a data type wider than the coordinate type: nothing narrows a particle's value implicitly on the way to its leaf
     # or on the copy path (witness and rule of C06.2, same compilation)
     import c06
